@@ -137,7 +137,7 @@ pub fn alpha() -> Alpha {
         max_inbound: 12,
         stray: vec![(AckKind::Puback, 9000), (AckKind::Pubcomp, 9001)],
         streams: true,
-        terms: vec![TermAct::UserDisconnect, TermAct::ServerDisconnect { reason: 0x8b, form: 2, props: true }, TermAct::ServerDisconnect { reason: 0, form: 0, props: false }, TermAct::Eof, TermAct::ReadErr, TermAct::Garbage],
+        terms: vec![TermAct::UserDisconnect, TermAct::ServerDisconnect { reason: 0x8b, form: 2, props: true }, TermAct::ServerDisconnect { reason: 0, form: 0, props: false }, TermAct::Eof, TermAct::ReadErr, TermAct::TransientReadErr(false), TermAct::TransientReadErr(true), TermAct::Garbage],
         drop_ctx: true,
         after_drop_kinds: vec![Kind::Pub1, Kind::Ping],
         reconnect: true,
